@@ -161,6 +161,7 @@ namespace occa {
       sourceMacros.clear();
 
       dependencies.clear();
+      dependencyHashes.clear();
     }
 
     preprocessor_t& preprocessor_t::operator = (const preprocessor_t &other) {
@@ -176,6 +177,7 @@ namespace occa {
       sourceMacros   = other.sourceMacros;
 
       dependencies = other.dependencies;
+      dependencyHashes = other.dependencyHashes;
       warnings     = other.warnings;
       errors       = other.errors;
 
@@ -485,6 +487,14 @@ namespace occa {
       }
 
       return deps;
+    }
+
+    hash_t preprocessor_t::getDependencyHash(const std::string &filename) const {
+      std::map<std::string, hash_t>::const_iterator it = dependencyHashes.find(filename);
+      if (it != dependencyHashes.end()) {
+        return it->second;
+      }
+      return hashFile(filename);
     }
     //==================================
 
@@ -1393,6 +1403,13 @@ namespace occa {
       // Push source after updating origin to the [\n] token
       input->clearCache();
       tokenizer->pushSource(header);
+
+      // Remember what was read: hashing the file again once the translation is done would
+      // record the hash of a later edit next to a binary made from these contents
+      if (tokenizer->origin.file
+          && (dependencyHashes.find(header) == dependencyHashes.end())) {
+        dependencyHashes[header] = occa::hash(tokenizer->origin.file->content);
+      }
     }
 
     void preprocessor_t::processPragma(identifierToken &directive) {
